@@ -168,8 +168,10 @@ class ClassicalBasisSimState(SimulationState[ClassicalBasisState]):
             perm = gate.permutation
             basis = self._state.basis
             original_values = [basis[q] for q in mapped_qubits]
-            for i, q in enumerate(mapped_qubits):
-                basis[perm[i]] = original_values[i]
+            for i in range(len(mapped_qubits)):
+                # permutation[i] = j moves the value of the gate's i-th qubit to its j-th qubit;
+                # both are positions among the gate's qubits, not among the simulated qubits.
+                basis[mapped_qubits[perm[i]]] = original_values[i]
         else:
             raise ValueError(
                 f'{gate} is not one of X, SWAP, QubitPermutationGate; a controlled version '
